@@ -5,8 +5,8 @@ use educe::Educe;
 use core::cmp::Ordering;
 #[derive(Educe)]
 #[educe(PartialEq)]
-pub enum T { None { y: A<0>, source: A<0> }, Some, V1 { #[educe(PartialEq(ignore))] b: A<0> }, A {  } }
-pub fn values() -> Vec<T> { vec![T::None { y: A(0), source: A(0) }, T::None { y: A(0), source: A(1) }, T::None { y: A(0), source: A(7) }, T::None { y: A(1), source: A(0) }, T::None { y: A(1), source: A(1) }, T::None { y: A(1), source: A(7) }, T::None { y: A(7), source: A(0) }, T::None { y: A(7), source: A(1) }, T::None { y: A(7), source: A(7) }, T::Some, T::V1 { b: A(0) }, T::V1 { b: A(1) }, T::V1 { b: A(7) }, T::A {  }] }
-pub fn show(x: &T) -> String { #[allow(unused_variables)] match x { T::None { y: p0, source: p1 } => format!("None({},{})", sv(p0), sv(p1)), T::Some => format!("Some()"), T::V1 { b: p0 } => format!("V1({})", sv(p0)), T::A {  } => format!("A()") } }
-pub fn o_eq(a: &T, b: &T) -> bool { match (a, b) { (T::None { y: a0, source: a1 }, T::None { y: b0, source: b1 }) => (a0 == b0) && (a1 == b1), (T::Some, T::Some) => true, (T::V1 { b: a0 }, T::V1 { b: b0 }) => true, (T::A {  }, T::A {  }) => true, _ => false } }
+pub enum T { B(A<0>, #[educe(PartialEq(method = m_eq))] A<0>) }
+pub fn values() -> Vec<T> { vec![T::B(A(0), A(0)), T::B(A(0), A(1)), T::B(A(0), A(7)), T::B(A(1), A(0)), T::B(A(1), A(1)), T::B(A(1), A(7)), T::B(A(7), A(0)), T::B(A(7), A(1)), T::B(A(7), A(7))] }
+pub fn show(x: &T) -> String { #[allow(unused_variables)] match x { T::B(p0, p1) => format!("B({},{})", sv(p0), sv(p1)) } }
+pub fn o_eq(a: &T, b: &T) -> bool { match (a, b) { (T::B(a0, a1), T::B(b0, b1)) => (a0 == b0) && m_eq(a1, b1) } }
 pub fn run(out: &mut Out) { let vs = values(); for a in &vs { for b in &vs { let e = o_eq(a, b); out.check((a == b) == e, "eq_1", "eq", || format!("{} == {} expected {}", show(a), show(b), e)); out.check((a != b) == !e, "eq_1", "ne", || format!("{} != {} expected {}", show(a), show(b), !e)); } } }
